@@ -5,10 +5,56 @@ package corerad
 // exercised for every (index, min, max) vector.
 
 import (
+	"context"
+	"fmt"
 	"math/rand"
+	"net/netip"
 	"testing"
 	"time"
+
+	"github.com/mdlayher/corerad/internal/config"
 )
+
+// vfLoopVector drives the real unsolicited-RA loop (Advertiser.multicast) against a consumer that takes its time to
+// accept some of the requests ("stalls": request index -> milliseconds), under virtual time, and records when each
+// request was handed over. Every wait is chosen after the hand-over, so two consecutive hand-overs are at least
+// MinRtrAdvInterval apart however long the previous one took; the loop never spins.
+func vfLoopVector(t *testing.T, rec *vfRec, v, inp map[string]any) {
+	var times []any
+	panicked := false
+	res := vfBubble(t, func(t *testing.T) {
+		defer func() {
+			if r := recover(); r != nil {
+				panicked = true
+			}
+		}()
+		mn := time.Duration(vfInt(inp, "min", 0)) * time.Millisecond
+		mx := time.Duration(vfInt(inp, "max", 0)) * time.Millisecond
+		a := NewAdvertiser(NewContext(nil, nil, nil), config.Interface{Name: "vf0", MinInterval: mn, MaxInterval: mx}, nil, nil, func() bool { return false })
+		ctx, cancel := context.WithCancel(context.Background())
+		ipC := make(chan netip.Addr)
+		done := make(chan struct{})
+		go func() { defer close(done); a.multicast(ctx, ipC) }()
+		stalls := vfMap(inp, "stalls")
+		start := time.Now()
+		for k := 0; k < vfInt(inp, "n", 6); k++ {
+			if ms := vfInt(stalls, fmt.Sprint(k), 0); ms > 0 {
+				time.Sleep(time.Duration(ms) * time.Millisecond)
+			}
+			<-ipC
+			times = append(times, int(time.Since(start)/time.Millisecond))
+		}
+		cancel()
+		<-done
+	})
+	if res != "" {
+		panicked = true
+	}
+	if times == nil {
+		times = []any{}
+	}
+	rec.raw(map[string]any{"kind": "c05loop", "id": vfStr(v, "id", ""), "in": inp, "out": map[string]any{"times": times, "panic": panicked}})
+}
 
 type vfScripted struct{ v int64 }
 
@@ -25,6 +71,10 @@ func TestVF_MDelay(t *testing.T) {
 	rnd := rand.New(rand.NewSource(int64(vfEnvInt("VERIF_SEED", 1))))
 	for _, v := range vfReadLines(in) {
 		inp := vfMap(v, "in")
+		if vfStr(v, "kind", "c05") == "c05loop" {
+			vfLoopVector(t, rec, v, inp)
+			continue
+		}
 		mn := time.Duration(vfInt(inp, "min", 0)) * time.Millisecond
 		mx := time.Duration(vfInt(inp, "max", 0)) * time.Millisecond
 		i := vfInt(inp, "i", 0)
